@@ -127,3 +127,25 @@ def dispatch_keys():
     allk = set().union(*d.values())
     d["inBody"] |= allk
     return d
+
+
+FRAGMENT_CONTAINERS = ["table", "tbody", "tr", "td", "caption", "colgroup", "select", "html", "head", "body", "frameset", "svg",
+                       "math", "title", "template", "option"]
+
+
+def fragment_directed(keys):
+    """(container, markup): every start/end tag right at the start of a fragment in the contexts that matter, plus
+    formatting/adoption-agency shapes inside table contexts"""
+    out = []
+    names = sorted(set().union(*keys.values()))
+    i = 0
+    for c in FRAGMENT_CONTAINERS:
+        for n in names:
+            for kind in ("<%s>", "</%s>"):
+                out.append((c, kind % n + FOLLOW[i % len(FOLLOW)]))
+                i += 1
+        for sec in ("tbody", "tfoot", "tr", "td", "caption", "colgroup", "option", "p"):
+            for f in ("b", "a", "small", "nobr"):
+                out.append((c, "<%s><%s><p>x</%s>y" % (sec, f, f)))
+                out.append((c, "<%s><%s><div><%s>x</%s>y</div>z" % (sec, f, f, f)))
+    return out
